@@ -396,7 +396,7 @@ Theorem verify_accept_inv w q o wall :
   fst (verify w q (Some o) wall) = Ok tt ->
   exists qq ch ext col,
     q = Some qq /\ check_quote (Some qq) = Ok tt /\
-    extract_chain w qq = Ok ch /\ cPckExt (chLeaf ch) = Ok ext /\
+    extract_chain w qq = Ok ch /\ cPckExt (chLeaf ch) = Some ext /\
     (optGetCollateral o = false -> col = None) /\
     (optGetCollateral o = true ->
        exists c ca, col = Some c /\ extract_ca (chLeaf ch) = Ok ca /\
@@ -407,7 +407,7 @@ Proof.
   destruct (check_quote q) as [[]| |] eqn:Hck; [|discriminate|discriminate].
   destruct q as [qq|]; [|discriminate].
   destruct (extract_chain w qq) as [ch| |] eqn:Hch; [|discriminate|discriminate].
-  destruct (cPckExt (chLeaf ch)) as [ext| |] eqn:Hext; [|discriminate|discriminate].
+  destruct (cPckExt (chLeaf ch)) as [ext|] eqn:Hext; [|discriminate].
   fold (now_of o wall) in H.
   destruct (optGetCollateral o) eqn:Hg.
   - destruct (extract_ca (chLeaf ch)) as [ca| |] eqn:Hca; [|discriminate|discriminate].
@@ -603,7 +603,7 @@ Qed.
 
 Theorem verify_urls w q o wall u :
   In u (snd (verify w q (Some o) wall)) ->
-  exists qq ch ext ca, q = Some qq /\ extract_chain w qq = Ok ch /\ cPckExt (chLeaf ch) = Ok ext /\
+  exists qq ch ext ca, q = Some qq /\ extract_chain w qq = Ok ch /\ cPckExt (chLeaf ch) = Some ext /\
     extract_ca (chLeaf ch) = Ok ca /\ optGetCollateral o = true /\
     In u (snd (obtain_collateral w (eFmspc ext) ca o)).
 Proof.
@@ -611,7 +611,7 @@ Proof.
   destruct (check_quote q) as [[]| |]; cbn; try contradiction.
   destruct q as [qq|]; cbn; [|contradiction].
   destruct (extract_chain w qq) as [ch| |] eqn:Hch; cbn; try contradiction.
-  destruct (cPckExt (chLeaf ch)) as [ext| |] eqn:Hext; cbn; try contradiction.
+  destruct (cPckExt (chLeaf ch)) as [ext|] eqn:Hext; cbn; try contradiction.
   destruct (optGetCollateral o) eqn:Hg; cbn; [|contradiction].
   destruct (extract_ca (chLeaf ch)) as [ca| |] eqn:Hca; cbn; try contradiction.
   intro H. apply snd_fbind in H as [H|(c & _ & H)]; [|cbn in H; contradiction].
@@ -636,4 +636,93 @@ Theorem verify_raw_accept w raw o wall :
   exists q, parse raw = Ok q /\ fst (verify w (Some q) o wall) = Ok tt.
 Proof.
   unfold verify_raw. destruct (parse raw) as [q| |]; cbn; try discriminate. eauto.
+Qed.
+
+(* ---- corollaries used by the property files ---- *)
+Theorem accept_facts w q o wall :
+  fst (verify w q (Some o) wall) = Ok tt ->
+  exists qq ch ext col,
+    q = Some qq /\ check_quote (Some qq) = Ok tt /\ extract_chain w qq = Ok ch /\
+    cPckExt (chLeaf ch) = Some ext /\
+    chain_facts w ch col o (now_of o wall) wall /\
+    sig_facts w qq (chLeaf ch) /\
+    (optGetCollateral o = false -> col = None) /\
+    (optGetCollateral o = true ->
+       exists c ca, col = Some c /\ extract_ca (chLeaf ch) = Ok ca /\
+         fst (obtain_collateral w (eFmspc ext) ca o) = Ok c /\
+         collateral_from_signed w (eFmspc ext) c /\
+         collateral_facts c o (now_of o wall) /\
+         tcbinfo_facts w c o (now_of o wall) wall /\ qeidentity_facts w c o (now_of o wall) wall /\
+         exists b qe r, qBody qq = Some b /\ quote_qercd qq = Some qe /\ qReport qe = Some r /\
+           verify_td_body b (colTcbInfo c) ext = Ok tt /\ verify_qe_report r (colQeId c) = Ok tt).
+Proof.
+  intro H. apply verify_accept_inv in H as (qq & ch & ext & col & -> & Hck & Hch & Hext & Hn & Hc & Hev).
+  apply verify_evidence_inv in Hev as (Hcf & Hk & Hq).
+  apply verify_quote_inv in Hq as (Hs & Hbody).
+  exists qq, ch, ext, col.
+  refine (conj eq_refl (conj Hck (conj Hch (conj Hext (conj Hcf (conj Hs (conj Hn _))))))).
+  intro Hg. destruct (Hc Hg) as (c & ca & -> & Hca & Hob).
+  destruct (Hk Hg) as (c' & Hc' & K1 & K2 & K3). inversion Hc'; subst c'.
+  exists c, ca.
+  refine (conj eq_refl (conj Hca (conj Hob (conj _ (conj K1 (conj K2 (conj K3 _))))))).
+  - eapply obtain_collateral_inv; eassumption.
+  - exact (Hbody c eq_refl).
+Qed.
+
+(* the message whose signature is checked is bytes 0..631 of the raw input *)
+Theorem raw_signed_message w raw o wall :
+  fst (verify_raw w raw (Some o) wall) = Ok tt ->
+  exists q, parse raw = Ok q /\
+    ecdsa_ok w (att_key q) (slice 0 632 raw) (quote_sig q) = Ok true.
+Proof.
+  intro H. apply verify_raw_accept in H as (q & Hp & H).
+  apply accept_facts in H as (qq & ch & ext & col & Hq & _ & _ & _ & _ & Hs & _).
+  inversion Hq; subst qq. exists q. split; [exact Hp|].
+  destruct (sf_quote_sig _ _ _ Hs) as (hb & bb & Hh & Hb & He).
+  destruct (parse_signed_prefix _ _ Hp) as [Hh' Hb'].
+  rewrite Hh' in Hh. rewrite Hb' in Hb. apply Ok_inj in Hh, Hb. subst.
+  rewrite slice_app in He by lia. exact He.
+Qed.
+
+(* the signed encodings determine the header / body / report: no field can change
+   without changing a signed message *)
+Theorem ser_header_injective h1 h2 d :
+  ser_header (Some h1) = Ok d -> ser_header (Some h2) = Ok d -> h1 = h2.
+Proof.
+  intros H1 H2. apply ser_header_parse in H1 as [H1 _]. apply ser_header_parse in H2 as [H2 _]. congruence.
+Qed.
+Theorem ser_body_injective b1 b2 d :
+  ser_body (Some b1) = Ok d -> ser_body (Some b2) = Ok d -> b1 = b2.
+Proof.
+  intros H1 H2. apply ser_body_parse in H1 as [H1 _]. apply ser_body_parse in H2 as [H2 _]. congruence.
+Qed.
+Theorem ser_report_injective r1 r2 d :
+  u32 (rMiscSelect r1) -> u32 (rMiscSelect r2) ->
+  ser_report (Some r1) = Ok d -> ser_report (Some r2) = Ok d -> r1 = r2.
+Proof.
+  intros U1 U2 H1 H2. apply (ser_report_parse _ _ U1) in H1 as [H1 _].
+  apply (ser_report_parse _ _ U2) in H2 as [H2 _]. congruence.
+Qed.
+
+(* revocation asked for without collateral never succeeds *)
+Theorem revocation_needs_collateral w q o wall :
+  optCheckRevocations o = true -> optGetCollateral o = false ->
+  fst (verify w q (Some o) wall) <> Ok tt.
+Proof.
+  intros Hr Hg H. apply accept_facts in H as (qq & ch & ext & col & _ & _ & _ & _ & Hcf & _).
+  destruct (cf_revocation _ _ _ _ _ _ Hcf Hr) as (Hg' & _). congruence.
+Qed.
+
+(* a pool that neither contains nor certifies the chain's leaf / intermediate rejects *)
+Theorem foreign_pool_rejects w q o wall :
+  (forall qq ch, q = Some qq -> extract_chain w qq = Ok ch ->
+     forall r, In r (effective_roots w o) ->
+       same_cert (chLeaf ch) r = false /\ sig_from w (chLeaf ch) r = false /\
+       same_cert (chInter ch) r = false /\ sig_from w (chInter ch) r = false) ->
+  fst (verify w q (Some o) wall) <> Ok tt.
+Proof.
+  intros Hf H. apply accept_facts in H as (qq & ch & ext & col & Hq & _ & Hch & _ & Hcf & _).
+  pose proof (cf_anchor _ _ _ _ _ _ Hcf) as Ha. apply path_ok_spec in Ha.
+  rewrite (no_anchor w (chLeaf ch) (chInter ch)) in Ha; [discriminate|].
+  exact (Hf qq ch Hq Hch).
 Qed.
